@@ -7,6 +7,7 @@ import JenVerif.Props.C17
 import JenVerif.Props.C15
 import JenVerif.Props.C06
 import JenVerif.Props.C04
+import JenVerif.Props.C19
 /-
   Property statements transferred to the TRANSLATED code.
 
@@ -225,6 +226,18 @@ theorem C04_block_exact_on_code (w : World) (f : FileS)
   rw [hs]
   exact C04.block_paths_exact hH (Props.stdOk tl ip) items p
 
+/-- C19 on the translated `File.register`: the cgo pseudo-package is registered as `C`, unaliased,
+    whatever hints, prefix and other imports the File has (every library satisfying `AsciiOk`, every
+    sufficient fuel) -/
+theorem C19_C_on_code (lib : Go.Lib) (hl : lib.AsciiOk) (f : FileS)
+    (hI : RegistryInv.Inv (Props.cfgOf tl ip) f) (hloc : Registry.isLocal f b!"C" = false) (fuel : Nat)
+    (hf : registerFuel tl ip f b!"C" ≤ fuel) :
+    (Gen.Src.register (Props.cfgOf tl ip) lib fuel f b!"C").1 = b!"C" ∧
+    Registry.lookupImp (Gen.Src.register (Props.cfgOf tl ip) lib fuel f b!"C").2 b!"C" = ⟨b!"C", false⟩ := by
+  rw [register_src_eq_model tl ip lib hl f b!"C" fuel hf]
+  exact C19.C_registered_as_C hI hloc
+
+#print axioms C19_C_on_code
 #print axioms C04_block_exact_on_code
 #print axioms C06_local_on_code
 #print axioms C17_lookup_on_code
